@@ -1,6 +1,7 @@
 /* stage <id> <status> [ignored args...]
  * Appends "<id>\n" to the file named by $STAGE_LOG (O_APPEND, one write) and exits with <status>.
- * An id "-" writes nothing; an extra argument d<N> makes it sleep N milliseconds before it ends.
+ * An id "-" writes nothing; an extra argument d<N> makes it sleep N milliseconds before it ends; an extra argument "p" makes
+ * it print "<id>\n" on its standard output as well.
  * With status "sigN" kills itself with signal N.  Used as a pipeline whose effect is observable
  * without touching the shell's stdout/stderr. */
 #include <fcntl.h>
@@ -21,6 +22,8 @@ int main(int argc, char **argv) {
             close(fd);
         }
     }
+    for (int i = 3; i < argc; i++)
+        if (strcmp(argv[i], "p") == 0) { printf("%s\n", argv[1]); fflush(stdout); }
     for (int i = 3; i < argc; i++)
         if (argv[i][0] == 'd' && argv[i][1] >= '0' && argv[i][1] <= '9') usleep(1000 * atoi(argv[i] + 1));
     if (strncmp(argv[2], "sig", 3) == 0) {
